@@ -5,7 +5,8 @@ proof:  lean/AdeptProofs/Props/C07.lean (invariant of the storage life-cycle mod
         while active data live, no leak, who shares with whom, ownership and independence after `=`, a REJECTED operation
         is the identity, temporaries / by-value parameters net out to nothing)
 tie:    hand-written model AdeptModel/Storage.lean  <->  Storage.h add_link/remove_link, the constructors, destructor,
-        link, clear, resize, copy and move assignment, swap, soft_link and every view-returning member function of
+        link, clear, resize, copy and move assignment, swap, soft_link, construction from and assignment of std::initializer_lists
+        (vectors of the three classes, nested lists for Array<2>, FixedArray) and every view-returning member function of
         Array<1> (int, active, passive double), Array<2> and SpecialMatrix (symmetric, tridiagonal, diagonal; passive and active),
         including the CROSS-CLASS views Array::diag_matrix(), inactive_link()/value(), diag_vector of special matrices,
         FixedArray slices and FixedArray::diag_matrix().
@@ -34,7 +35,8 @@ NS = "Adept.Storage."
 REQUIRED = ["C07_failed_allocation_state", "C07_storageless_release_is_noop", "C07_inv_init", "C07_inv_step", "C07_inv_reachable", "C07_inv_meaning", "C07_freed_once", "C07_no_storage_fault", "C07_no_leak",
             "C07_gradients_exact", "C07_rejected_is_identity", "C07_rejected_op_erasable", "C07_view_ctor_rejects_first",
             "C07_shares_exactly", "C07_temporary_roundtrip", "C07_swap_exchanges", "C07_soft_external_hold_nothing",
-            "C07_assign_owns", "C07_assign_no_new_alias", "C07_assign_independent", "C07_view_zero_extent_canonical"]
+            "C07_assign_owns", "C07_assign_no_new_alias", "C07_assign_independent", "C07_view_zero_extent_canonical",
+            "C07_list_ctor_fresh_owner", "C07_list_assign_in_place"]
 MODEL_FILE = ("AdeptModel/Storage.lean <-> Storage.h / Array.h / SpecialMatrix.h life cycle (ctor, dtor, views, link, clear, "
               "resize, =, move =, swap)")
 SRC = os.path.join(vbuild.VERIF, "harness", "drv_storage.cpp")
@@ -68,6 +70,8 @@ def classify(c):
         return ("view",) + sc
     if c == "newm":
         return ("newm",)
+    if c.startswith("inew") and c[4:] in ("", "a", "p"):
+        return ("new", KIND_SFX[c[4:]])        # a vector constructed from an initializer list of n values: a fresh owner of n elements
     if c.startswith("newd") and c[4:] in KIND_SFX:
         return ("newd", KIND_SFX[c[4:]])
     if c.startswith("newfn") and c[5:] in KIND_SFX:
@@ -84,7 +88,7 @@ def is_assign(c):
 
 def is_create(c):
     cl = classify(c)
-    return (cl[0] in ("new", "newd", "newfn", "newm") or c in ("ext", "extfn", "fsl", "fdiag", "cp", "cpc", "cpm", "soft", "sum", "vpush")
+    return (cl[0] in ("new", "newd", "newfn", "newm") or c == "inewm" or c in ("ext", "extfn", "fsl", "fdiag", "cp", "cpc", "cpm", "soft", "sum", "vpush")
             or (cl[0] == "view" and cl[1] in ("", "fn", "fnv")))
 
 
@@ -297,13 +301,14 @@ ALLOWED_EXC = {
     "ac": {"size_mismatch"}, "am": {"size_mismatch"}, "amfn": {"size_mismatch"}, "amdup": {"size_mismatch"},
     "rs": {"invalid_dimension"}, "rsi": {"invalid_dimension"}, "rs2": {"invalid_dimension"}, "rsi2": {"invalid_dimension"},
     "fnrs": {"invalid_dimension"}, "newm": {"invalid_dimension"},
+    "ial": {"size_mismatch"},
 }
 
 
 def targets_of(c, cl, a):
     if is_create(c):
         return {a[0]}
-    if c in ("link", "rs", "rsi", "rs2", "rsi2", "clr", "del", "vpop") or is_assign(c) or (cl[0] == "view" and cl[1] == "link"):
+    if c in ("link", "rs", "rsi", "rs2", "rsi2", "clr", "del", "vpop", "ial") or is_assign(c) or (cl[0] == "view" and cl[1] == "link"):
         t = {a[0]}
         if c == "am":
             t.add(a[1])
@@ -331,6 +336,11 @@ def must_throw(c, cl, a, prev):
         return "invalid_dimension" if resize_outcome(cl[1], cl[1] in SPEC, n0, n1) == "exc" else None
     if c == "newm":
         return "invalid_dimension" if resize_outcome("m", False, a[1], a[2]) == "exc" else None
+    if c in ("inewm", "fnewl"):
+        return None
+    if c == "ial" and a[0] in prev:
+        # a list longer than a NON-empty vector is rejected; an empty() vector (also an empty view) is resized to the list
+        return "size_mismatch" if prev[a[0]].d0 != 0 and a[1] > prev[a[0]].d0 else None
     if c in ("rs", "rsi", "rs2", "rsi2") and a[0] in prev:
         k = prev[a[0]].kind
         if c in ("rs", "rsi"):
@@ -347,7 +357,7 @@ def must_throw(c, cl, a, prev):
     if c == "sum" and a[1] in prev and a[2] in prev:
         return "size_mismatch" if prev[a[1]].d0 != prev[a[2]].d0 else None
     if c in ("cp", "cpc", "cpm", "soft", "clr", "del", "w", "fnw", "swp", "vpush", "vpop", "fsl", "fdiag", "xw", "xend", "xnew", "fnew", "end",
-             "failnext") \
+             "failnext", "fnewl") \
             or cl[0] == "newd":
         return None
     return "?"
@@ -511,6 +521,8 @@ def oracle(hist, lines):
 def written_allocs(c, cl, a, objs, prev):
     if c in ("w", "fnw"):
         return {prev[a[0]].alloc}
+    if c == "ial":
+        return {prev[a[0]].alloc, objs[a[0]].alloc} if a[0] in objs and a[0] in prev else set()
     if c in ("xw", "xend"):
         return {"X%d" % a[0]}
     if is_assign(c):
@@ -561,6 +573,29 @@ def op_rule(c, cl, a, objs, prev, exts, prev_exts, seen_labels, soft):
         _, kind, delta, d0, d1, s0, s1 = ev
         return (b.alloc, b.off + delta, d0, d1, s0, s1)
 
+    def holds(o, want, what):
+        if o.v in ("!", None):
+            return None
+        got = [int(round(float(x))) for x in o.v]
+        return None if got == want else "%s reads %s, the initializer list gives %s" % (what, got, want)
+
+    if c.startswith("inew") and c != "inewm":
+        # constructed from a list of n values: a fresh owner of exactly n elements holding the list
+        msg = fresh_owner(objs[a[0]], cl[1], resize_outcome(cl[1], False, a[1], 0), "array constructed from an initializer list")
+        return msg or holds(objs[a[0]], list(range(a[2], a[2] + a[1])), "array constructed from a list")
+    if c == "inewm":
+        msg = fresh_owner(objs[a[0]], "m", resize_outcome("m", False, 2, 3), "matrix constructed from a nested initializer list")
+        want = list(range(a[2], a[2] + 6)) if a[1] == 0 else list(range(a[2], a[2] + 4)) + [0, 0]
+        return msg or holds(objs[a[0]], want, "matrix constructed from a nested list")
+    if c == "ial":
+        o, o0 = objs[a[0]], prev[a[0]]
+        if o0.d0 == 0:
+            soft.discard(a[0])
+            msg = fresh_owner(o, o0.kind, resize_outcome(o0.kind, False, a[1], 0), "empty vector assigned an initializer list")
+            return msg or holds(o, list(range(a[2], a[2] + a[1])), "empty vector assigned a list")
+        if o.struct() != o0.struct():
+            return "assignment of an initializer list moved a non-empty vector: %s -> %s" % (o0.struct(), o.struct())
+        return holds(o, list(range(a[2], a[2] + a[1])) + [0] * (o0.d0 - a[1]), "vector assigned a list")
     if cl[0] in ("new", "newfn"):
         n0, n1 = dims1(cl[1], a[1])
         return fresh_owner(objs[a[0]], cl[1], resize_outcome(cl[1], cl[1] in SPEC, n0, n1), "new array")
@@ -905,6 +940,13 @@ class Gen:
             else:
                 self.emit("new%s%s %d %d %d" % (r.choice(["", "fn"]), SFX_OF[kd], k, r.choice([-1, -2]), self.val()))
             return
+        if kd in VEC and 1 <= n0 <= 4 and r.random() < 0.3:
+            # constructed from an initializer list
+            self.emit("inew%s %d %d %d" % (SFX_OF[kd], k, n0, self.val())); self.setobj(k, kd, (n0, 0))
+            return
+        if kd == "m" and r.random() < 0.2:
+            self.emit("inewm %d %d %d" % (k, r.randrange(2), self.val())); self.setobj(k, kd, (2, 3))
+            return
         if kd == "m":
             if r.random() < 0.25:
                 self.emit("newfnm %d %d %d" % (k, n0, self.val())); self.setobj(k, kd, (n0, 2))
@@ -931,7 +973,7 @@ class Gen:
             if len(self.ext) < 4 and r.random() < 0.7 or not self.ext:
                 self.nx += 1
                 if r.random() < 0.4:
-                    self.emit("fnew %d %d" % (self.nx, self.val())); self.ext[self.nx] = [4, True, True]
+                    self.emit("%s %d %d" % (r.choice(["fnew", "fnewl"]), self.nx, self.val())); self.ext[self.nx] = [4, True, True]
                 else:
                     n = r.randrange(1, 7)
                     self.emit("xnew %d %d %d" % (self.nx, n, self.val())); self.ext[self.nx] = [n, True, False]
@@ -996,7 +1038,13 @@ class Gen:
         elif x < 0.76:        # resize / clear, preferably of shared data
             a = self.pick()
             kd = K[a]
-            if r.random() < 0.4:
+            if kd in VEC and r.random() < 0.3:
+                # assignment of an initializer list: to an empty vector (resized), a longer one (stored in front, rest zero), a shorter one (rejected)
+                n = r.randrange(1, 5)
+                self.emit("ial %d %d %d" % (a, n, self.val()))
+                if not self.nonempty(a):
+                    D[a] = (n, 0)
+            elif r.random() < 0.4:
                 self.emit("clr %d" % a); D[a] = (0, 0)
             elif kd in VEC or (kd in SPEC and r.random() < 0.6):
                 n = r.choice([-2, -1, 0, 1, 2, 3, 4, 6] if kd in VEC else [-1, 0, 1, 2, 3, 4])
@@ -1160,6 +1208,27 @@ def sources(n):
         "empty": ["newd 2"],
         "empty_over_external": ["xnew 8 5 300", "ext 2 8 1 0"],
     }
+
+
+def directed_lists():
+    """objects constructed from / assigned initializer lists: every rank-1 target of TARGETS (and their active / value() counterparts)
+    assigned lists shorter than, as long as and longer than the target, with sharers watching, parents dying, allocation faults;
+    list-constructed vectors of every class and length, matrices (full and ragged), FixedArrays, then shared, viewed, released"""
+    out = []
+    for t, pre in sorted(TARGETS.items()):
+        for n in (1, 3, 4):
+            out.append(pre + ["cp 20 1", "ial 1 %d 500" % n, "w 1 0 77", "ial 20 2 600", "del 10", "ial 1 %d 700" % n, "xend 9", "del 1", "ial 20 1 5", "end"])
+            out.append(pre + ["failnext 1", "ial 1 %d 500" % n, "ial 1 %d 510" % n, "clr 1", "failnext 1", "ial 1 %d 520" % n, "ial 1 2 530", "end"])
+    for sfx in ("", "a", "p"):
+        for n in (1, 2, 3, 4):
+            out.append(["inew%s 1 %d 5" % (sfx, n), "cp 2 1", "sl 3 1 0 %d 1" % (n - 1), "sl 4 1 %d %d 1" % (n - 1, max(0, n - 2)) if n > 1 else "sl 4 1 0 0 1",
+                        "ial 4 2 40", "del 1", "ial 2 %d 9" % n, "ial 3 4 1", "inew%s 5 %d 50" % (sfx, n), "link 5 2", "ial 5 1 3", "clr 2", "ial 2 3 60",
+                        "failnext 1", "inew%s 6 %d 70" % (sfx, n), "inew%s 7 %d 80" % (sfx, n), "am 7 3", "ial 7 1 0", "end"])
+    for r in (0, 1):
+        out.append(["inewm 1 %d 10" % r, "idx 2 1 1", "row 3 1 0 0 2 1", "ial 2 2 90", "del 1", "ial 3 3 95", "inewm 4 %d 20" % (1 - r), "ac 4 1", "cp 5 4", "clr 4",
+                    "failnext 1", "inewm 6 %d 30" % r, "inewm 7 %d 30" % r, "tr 8 7", "del 7", "end"])
+    out.append(["fnewl 9 200", "fsl 1 9 1 3", "ial 1 2 7", "fdiag 2 9", "fnewl 8 300", "fsl 3 8 0 3", "ial 3 4 1", "new 4 2 5", "amfix 4 8 0 1", "xend 9", "end"])
+    return out
 
 
 def directed():
@@ -1639,6 +1708,14 @@ def run(ctx, replay):
     ctx.notes["corpus_cases"] = len(corpus)
     bad = run_hists(ctx, exe, corpus, "corpus", 1)
     dm, dr, dk, df = directed(), directed_rejects(), directed_kinds(), directed_faults()
+    dl = directed_lists()
+    ctx.notes["directed_initializer_list_cases"] = len(dl)
+    ctx.notes["initializer_list_distribution"] = (
+        "directed, every run: 12 kinds of rank-1 target x lists of 1/3/4 values (shorter, equal, longer: rejected) x with/without allocation "
+        "fault; list-constructed int / active / value() vectors of 1..4 elements, 2x3 matrices full and ragged, FixedArray<int,false,4>; "
+        "random: ~30% of the small vector constructions, ~20% of the matrix constructions, half of the FixedArray blocks are made from lists, "
+        "~30% of the resize/clear slot on vectors is a list assignment (see distribution.ops inew*/inewm/fnewl/ial)")
+    bad += run_hists(ctx, exe, dl, "directed-lists", workers)
     ctx.notes["directed_cases"] = {"rank1_assign_link_release": len(dm), "rejected_requests": len(dr), "kinds_views_functions": len(dk),
                                    "allocation_faults": len(df)}
     bad += run_hists(ctx, exe, df, "directed-faults", workers)
